@@ -26,7 +26,7 @@ VersionCs == {"none", "int", "micro_upper", "micro_lower", "big", "junk"}      \
 ErrorCs == {"none", "L", "lower_m", "H", "dash", "bad"}                        \* L / m / H / - / x (not a choice)
 ModeCs == {"none", "byte", "upper_numeric", "bad"}                             \* byte / NUMERIC / foo (not a choice)
 MicroCs == {"none", "micro", "no_micro"}
-PatternCs == {"none", "two", "nine", "junk"}                                   \* 2 / 9 / x (not an int)
+PatternCs == {"none", "zero", "two", "nine", "junk"}                           \* 0 (falsy!) / 2 / 9 / x (not an int)
 EncCs == {"none", "utf8"}
 CountCs == {"none", "two", "junk"}
 ContentCs == {"digits", "two_words", "text"}
